@@ -1,5 +1,6 @@
 import EchoModel.RouterWire
 import EchoModel.RouterSpec
+import EchoModel.RouterInv
 /-!
 # C02 — route choice = the documented priority search, independent of registration order
 
@@ -21,23 +22,56 @@ def routeHost {α} (hosts : List (Str × α)) (dflt : α) (host : Str) : α :=
   | some (_, t) => t
   | none => dflt
 
-def pHostTable : P (Str × List Route) := do
+/-! ## what an application registers
+
+A table comes into being through a sequence of registration events: a route (method, full path, handler),
+possibly a route that is already registered (then the later registration is the one in force,
+`Router.Tree.dedupLast`), or a group being given middleware (`Group.Use`, `Echo.Group(prefix, mw...)`,
+`Echo.Host(name, mw...)`, group.go:21-33): that registers two RouteNotFound routes of the group's own — its prefix
+itself and everything below `prefix/` — so that the group's middleware also runs for unmatched paths of the group. -/
+
+inductive Event where
+  | route (method path : Str) (hid : Nat)
+  | use (pre : Str) (hid : Nat)       -- the group's catch-all routes get the handler ids `hid` and `hid + 1`
+deriving Repr, Inhabited
+
+/-- the two routes `Group.Use` registers for a group with prefix `pre` -/
+def groupCatchAll (pre : Str) (hid : Nat) : List Route :=
+  [⟨routeNotFound, pre, hid⟩, ⟨routeNotFound, pre ++ "/*".toList, hid + 1⟩]
+
+def expand : List Event → List Route
+  | [] => []
+  | .route m p h :: es => ⟨m, p, h⟩ :: expand es
+  | .use pre h :: es => groupCatchAll pre h ++ expand es
+
+/-- the table in force after the events: the last registration of every (method, pattern) -/
+def inForce (es : List Event) : List Route := Tree.dedupLast (expand es)
+
+def pEvent : P Event := do
+  let k ← tok
+  match k with
+  | "R" => do let m ← str; let p ← str; let h ← nat; pure (.route m p h)
+  | "U" => do let p ← str; let h ← nat; pure (.use p h)
+  | _ => failure
+
+def pHostTable : P (Str × List Event) := do
   let h ← str
-  let t ← pTable
+  let t ← list pEvent
   pure (h, t)
 
-/-- line: `defaultTable nhosts (host table)* reqHost method path` → outcome of the L1 search
-    on the table selected by the Host value -/
+/-- line: `defaultEvents nhosts (host events)* reqHost method path` → outcome of the L1 search
+    on the table in force of the router selected by the Host value -/
 def runLine (line : String) : String :=
   match parseLine (do
-      let t ← pTable; let hs ← list pHostTable; let h ← str; let m ← str; let p ← str
+      let t ← list pEvent; let hs ← list pHostTable; let h ← str; let m ← str; let p ← str
       pure (t, hs, h, m, p)) line with
   | none => "bad-op"
   | some (t, hs, h, m, p) =>
-    -- first token: which table served the request (0 = default, k = k-th host table)
+    -- first token: which table served the request (0 = default, k = k-th host table); `Echo.Host` called again
+    -- with the same name replaces the router: the LAST table registered under a name is the one in force
     let tagged := hs.zipIdx.map fun ((hn, ht), i) => (hn, (i + 1, ht))
-    let (k, tbl) := routeHost tagged (0, t) h
-    let out := Spec.routeTable tbl m p
+    let (k, evs) := routeHost tagged.reverse (0, t) h
+    let out := Spec.routeTable (inForce evs) m p
     let tag := match out with | .dispatch .. => toString k | _ => "-"   -- observable only through a handler
     render (tag :: encSpecOutcome out)
 
